@@ -8,16 +8,19 @@ from vlib.core import Outcome, line
 
 DTYPES = ['bool', 'int8', 'int32', 'int64', 'uint8', 'float16', 'float32', 'float64']
 SHAPES = [[], [3], [2, 0], [2, 2]]
-PRE = ['cast', 'affine', 'addfeat', 'dropfeat', 'inplace_rename', 'inplace_add']
+PRE = ['cast', 'affine', 'addfeat', 'dropfeat', 'inplace_rename', 'inplace_add', 'swapaxes']
 
 
-def make_raw(N, feats):
-  """Deterministic raw examples; feature 'id' = 1..N (so padding rows have id 0)."""
+def make_raw(N, feats, order='C'):
+  """Deterministic raw examples; feature 'id' = 1..N (so padding rows have id 0). order='F': the same
+  values stored column-major (as after `table.T` / np.asfortranarray), so row slices are not C-contiguous."""
   raw = {'id': np.arange(1, N + 1, dtype=np.int32)}
   for name, dt, shape in feats:
     size = int(np.prod([N] + shape))
     base = (np.arange(size).reshape([N] + shape) % 7) + 1
     raw[name] = base.astype(dt)
+    if order == 'F':
+      raw[name] = np.asfortranarray(raw[name])
   return raw
 
 
@@ -30,6 +33,15 @@ def pre_fn(name):
     return lambda x: {**x, 'sq': x['id'].astype(np.float32) ** 2}
   if name == 'dropfeat':
     return lambda x: {k: v for k, v in x.items() if k == 'id' or not k.startswith('f0')}
+  if name == 'swapaxes':
+    # a layout-changing preprocessor (NHWC -> NCHW style): the result is a non-contiguous view
+    def f(x):
+      out = dict(x)
+      for k, v in x.items():
+        if k.startswith('f') and v.ndim == 3:
+          out[k + 't'] = np.swapaxes(v, 1, 2)
+      return out
+    return f
   if name == 'inplace_rename':
     # updates the dict it is given in place (BatchPreprocessor documents that it guards against this)
     def f(x):
@@ -105,7 +117,7 @@ class C03(core.Property):
         feats.append([f'f{i}', rng.choice(DTYPES), rng.choice(SHAPES)])
       pre = [rng.choice(PRE) for _ in range(rng.randrange(0, 4))]
       yield {'N': N, 'bs': bs, 'B': rng.randrange(1, 8), 'drop': rng.random() < 0.5,
-             'feats': feats, 'pre': pre}
+             'feats': feats, 'pre': pre, 'order': rng.choice(['C', 'C', 'F'])}
 
   def shrink(self, case):
     if 'pick_sweep' in case:
@@ -124,7 +136,7 @@ class C03(core.Property):
       return self._pick_sweep(case, ctx)
     cds = self.cds
     N, bs, B, drop = case['N'], case['bs'], case['B'], case['drop']
-    raw = make_raw(N, [tuple(f) for f in case['feats']])
+    raw = make_raw(N, [tuple(f) for f in case['feats']], case.get('order', 'C'))
     snap = {k: v.copy() for k, v in raw.items()}
     pre = cds.BatchPreprocessor([pre_fn(p) for p in case['pre']])
     ds = cds.ClientDataset(raw, pre)
@@ -176,6 +188,21 @@ class C03(core.Property):
             break
     if not same(plain, plain_h) or not same(padded, padded_h):
       problems.append('hparams-object form differs from kwargs form')
+    # deriving ANOTHER preprocessor from the one this dataset uses (what FederatedData.preprocess_batch does),
+    # or from the module-wide default, must not change what the existing dataset / views yield
+    ds_default = cds.ClientDataset(raw)
+    default_before = list(ds_default.batch(batch_size=bs))
+    bump = lambda x: {**x, 'id': x['id'] + 1}
+    derived = pre.append(bump)
+    derived_default = cds.NoOpBatchPreprocessor.append(bump)
+    if not same(list(view), plain) or not same(list(pview), padded) or not same(list(ds.batch(batch_size=bs, drop_remainder=drop)), plain):
+      problems.append('batches of an existing dataset / view changed after its preprocessor\'s append() was used to derive another one')
+    if not same(list(ds_default.batch(batch_size=bs)), default_before) or not same(list(cds.ClientDataset(raw).batch(batch_size=bs)), default_before):
+      problems.append('datasets using the default (no-op) preprocessor changed after NoOpBatchPreprocessor.append() was called')
+    if N > 0:
+      d_ids = [int(i) for b in cds.ClientDataset(raw, derived).batch(batch_size=bs) for i in b['id']]
+      if d_ids != [i + 1 for i in range(1, N + 1)]:
+        problems.append('preprocessor derived with append() does not apply the appended function last, once')
     if any(not np.array_equal(raw[k], snap[k]) for k in snap) or set(raw) != set(snap):
       problems.append('raw examples mutated')
 
@@ -258,12 +285,12 @@ class C03(core.Property):
     impl_padded = [[[int(i) for i in b['id']], [bool(x) for x in b[cds.EXAMPLE_MASK_KEY]]] for b in padded]
     if ans[1] != impl_padded:
       corr.append(f'paddedView model {ans[1]} vs impl {impl_padded}')
-    impl_pick = cds._pick_final_batch_size(N, bs, B) if hasattr(cds, '_pick_final_batch_size') else None
+    impl_pick = len(padded[-1][cds.EXAMPLE_MASK_KEY]) if padded else None   # observed through the public view
     if impl_pick is not None and impl_pick != ans[2]:
       corr.append(f'pickFinal model {ans[2]} vs impl {impl_pick}')
 
     tags = [f'N%bs={"0" if N % bs == 0 else "r"}', f'N{"=0" if N == 0 else ("<bs" if N < bs else ("=bs" if N == bs else ">bs"))}',
-            f'drop={drop}', f'pre={len(case["pre"])}', f'feats={len(case["feats"])}']
+            f'drop={drop}', f'pre={len(case["pre"])}', f'feats={len(case["feats"])}', f'order={case.get("order", "C")}']
     return Outcome(oracle_fail='; '.join(problems[:4]) or None, corr_fail='; '.join(corr[:3]) or None,
                    nontrivial=N > 0 and (N % bs != 0 or N > bs), tags=tuple(tags),
                    detail={'impl_plain': impl_plain, 'impl_padded': impl_padded, 'model': ans})
@@ -272,10 +299,19 @@ class C03(core.Property):
     Nmax, bsmax, Bmax = case['pick_sweep']
     cds = self.cds
     triples = [(N, bs, B) for bs in range(1, bsmax + 1) for N in range(0, min(Nmax, 2 * bs + 2)) for B in range(1, Bmax + 1)]
-    ans = ctx.drv.ask([line('c03.pick', *t) for t in triples])
     problems, corr = [], []
+    triples = [t for t in triples if t[0] > 0]
+    ans = ctx.drv.ask([line('c03.pick', *t) for t in triples])
+    raws = {}
     for t, a in zip(triples, ans):
-      impl = cds._pick_final_batch_size(*t)
+      # the final batch size is observed through the public API (last batch of the padded view)
+      N = t[0]
+      if N not in raws:
+        raws[N] = cds.ClientDataset({'id': np.arange(1, N + 1, dtype=np.int32)})
+      last = None
+      for last in raws[N].padded_batch(batch_size=t[1], num_batch_size_buckets=t[2]):
+        pass
+      impl = len(last[cds.EXAMPLE_MASK_KEY])
       if impl != pick_final_ref(*t):
         problems.append(f'_pick_final_batch_size{t} = {impl}, bucket rule says {pick_final_ref(*t)}')
       if impl != a:
